@@ -1,0 +1,107 @@
+//! Verification hooks for the gossip network (cargo feature `verif`). No logic, only wrappers.
+#![allow(missing_docs, clippy::missing_docs_in_private_items)]
+use std::sync::Arc;
+
+use zksync_concurrency::{ctx, oneshot, sync};
+use zksync_consensus_engine::BlockStoreState;
+use zksync_consensus_roles::{node, validator};
+
+pub(crate) use super::handshake::Handshake as HandshakeMsg;
+use super::{fetch, handshake, ValidatorAddrsWatch};
+use crate::{verif::NoiseTcp, Config};
+
+/// The real inbound gossip handshake. Returns the authenticated peer key or the error text.
+pub async fn handshake_inbound(
+    ctx: &ctx::Ctx,
+    cfg: &Config,
+    genesis: validator::GenesisHash,
+    stream: &mut NoiseTcp,
+) -> Result<node::PublicKey, String> {
+    handshake::inbound(ctx, cfg, genesis, &mut stream.0)
+        .await
+        .map(|c| c.key.clone())
+        .map_err(|e| format!("{e:#}"))
+}
+
+/// The real outbound gossip handshake.
+pub async fn handshake_outbound(
+    ctx: &ctx::Ctx,
+    cfg: &Config,
+    genesis: validator::GenesisHash,
+    stream: &mut NoiseTcp,
+    peer: &node::PublicKey,
+) -> Result<node::PublicKey, String> {
+    handshake::outbound(ctx, cfg, genesis, &mut stream.0, peer)
+        .await
+        .map(|c| c.key)
+        .map_err(|e| format!("{e:#}"))
+}
+
+/// Builds the wire encoding of a gossip handshake message from its parts.
+pub fn encode_handshake(
+    session_id: node::Signed<node::SessionId>,
+    genesis: validator::GenesisHash,
+    is_static: bool,
+) -> Vec<u8> {
+    zksync_protobuf::encode(&HandshakeMsg {
+        session_id,
+        genesis,
+        is_static,
+        build_version: None,
+    })
+}
+
+/// The real validator address book.
+#[derive(Default)]
+pub struct AddrBook(ValidatorAddrsWatch);
+
+impl AddrBook {
+    pub async fn update(
+        &self,
+        validators: &validator::Schedule,
+        data: &[Arc<validator::Signed<validator::NetAddress>>],
+    ) -> anyhow::Result<()> {
+        self.0.update(validators, data).await
+    }
+    pub fn current(&self) -> Vec<Arc<validator::Signed<validator::NetAddress>>> {
+        self.0.current().values().cloned().collect()
+    }
+    pub async fn announce(
+        &self,
+        key: &validator::SecretKey,
+        addr: std::net::SocketAddr,
+        timestamp: zksync_concurrency::time::Utc,
+    ) {
+        self.0.announce(key, addr, timestamp).await
+    }
+}
+
+/// The real block fetch queue.
+#[derive(Default)]
+pub struct FetchQueue(fetch::Queue);
+
+/// Completion handle of an accepted request: `complete()` reports success, dropping it failure.
+pub struct Accepted(pub validator::BlockNumber, oneshot::Sender<()>);
+
+impl Accepted {
+    pub fn complete(self) {
+        let _ = self.1.send(());
+    }
+}
+
+impl FetchQueue {
+    pub fn current_blocks(&self) -> Vec<u64> {
+        self.0.current_blocks()
+    }
+    pub async fn request(&self, ctx: &ctx::Ctx, n: validator::BlockNumber) -> ctx::OrCanceled<()> {
+        self.0.request(ctx, fetch::RequestItem::Block(n)).await
+    }
+    pub async fn accept_block(
+        &self,
+        ctx: &ctx::Ctx,
+        available: &mut sync::watch::Receiver<BlockStoreState>,
+    ) -> ctx::OrCanceled<Accepted> {
+        let (n, send) = self.0.accept_block(ctx, available).await?;
+        Ok(Accepted(n, send))
+    }
+}
